@@ -1,4 +1,5 @@
 import OV.Model.Index
+import OV.Model.IndexZip
 import OV.Drivers.Loop
 /-! Line-protocol driver for C11.  `C11 <graph|eager|numpy> <shape> <comp>*`
     shape: `3,4` (or `-` for rank 0);  comp: `F` | `I:<i>` | `S:<b>:<b>:<b>` (b = `_`|`c<i>`|`d<i>`) | `T:<i>` | `V:<i>,<i>…` (`V:` empty) -/
@@ -73,6 +74,28 @@ def showNView (n : NView) (shape : List Nat) : String :=
        s!"front={p} shape={showNats n.shape} data={showNats data}"
      | _ => showView n.view shape)
 
+/-- Row-major sums of one contribution per output axis. -/
+def cart : List (List Nat) → List Nat
+  | [] => [0]
+  | a :: rest => a.flatMap (fun x => (cart rest).map (· + x))
+
+/-- NumPy result with zipped axes: output position `t` of the shared axis reads `srcs[t]` on every
+zipped source axis; the shared axis stands first (`front`) or at the place of the first zipped axis. -/
+def showZRes (z : ZRes) (shape : List Nat) : String :=
+  let ax := z.axes.zip (strides shape)
+  let base := (ax.map (fun p => match p.1 with | .drop s => s * p.2 | _ => 0)).foldl (· + ·) 0
+  let kept (l : List (ZAxis × Nat)) : List (List Nat) :=
+    l.filterMap (fun p => match p.1 with | .pick s => some (s.map (· * p.2)) | _ => none)
+  let zips := ax.filterMap (fun p => match p.1 with | .zip s => some (s, p.2) | _ => none)
+  let out : List (List Nat) :=
+    match zipLen? z.axes with
+    | none => kept ax
+    | some n =>
+      let zo := (List.range n).map (fun t => zips.foldl (fun acc q => acc + q.1.getD t 0 * q.2) 0)
+      if z.front then zo :: kept ax
+      else kept (ax.takeWhile (fun p => !p.1.isZip)) ++ zo :: kept (ax.dropWhile (fun p => !p.1.isZip))
+  s!"shape={showNats z.shape} data={showNats ((cart out).map (· + base))}"
+
 def showRes (r : Except Err View) (shape : List Nat) : String :=
   match r with
   | .ok v => showView v shape
@@ -94,8 +117,18 @@ def handle (args : List String) : String :=
          | .ok p => showPlan p ++ " | " ++ showRes (runPlan p (View.init shape)) shape
          | .error e => showErr e ++ " | " ++ showErr e)
       | "numpy" =>
+        if (cs.filter Comp.isVec).length ≥ 2 then
+          -- two or more 1-D indices: NumPy broadcasts and zips them (model: numpyIndexZ)
+          (match numpyIndexZ cs shape with
+           | .ok z => "zip " ++ showZRes z shape
+           | .error e => "zip " ++ showErr e)
+        else
         (match numpyIndexT cs shape with
          | .ok n => showNView n shape
+         | .error e => showErr e)
+      | "numpyz" =>   -- the zip model on any expression (it must agree with `numpy` below two 1-D indices)
+        (match numpyIndexZ cs shape with
+         | .ok z => showZRes z shape
          | .error e => showErr e)
       | _ => "bad-op"
     | _, _ => "bad-op"
